@@ -39,7 +39,7 @@ func main() {
 	run.DiagFn = "SegID.diag"
 	run.CaseType = "SegID.case"
 	run.Rule = "calculateBeta: every (length 1..8 and sampled up to 64, shortcut, peer, direction) with random MAC prefixes; " +
-		"extractBeta: random segments of length 0..64; extend-mac-input: the SegID under which the MAC of every hop field "+
+		"extractBeta: random segments of length 0..64; extend-mac-input: the SegID under which the MAC of every hop field " +
 		"(regular and peer entries) of segments beaconed with the real extender verifies (see extend.go); walk: SegIDs used by real routers along generated paths " +
 		"(see walk.go); non-trivial = length >= 2 or a peering/shortcut entry"
 	rng := vgen.NewRand(run.Seed)
